@@ -4,7 +4,6 @@ import (
 	"bytes"
 	"crypto/ed25519"
 	"encoding/json"
-	"errors"
 	"fmt"
 	"strings"
 	"time"
@@ -53,13 +52,13 @@ type parentCert struct {
 
 // handler is the C02 worker logic.
 type handler struct {
-	parents   []parentCert // fixed pool
-	graphPar  []int        // indices of the parents used in the per-certificate graphs
-	rootPool  *x509.CertPool // the graph parents as a pool
-	baseUnit  int
-	extra     []parentCert // per unit: base certificate, issuing minted CA
-	sigAlgs   []x509.SignatureAlgorithm
-	minted    map[string][]byte
+	parents  []parentCert   // fixed pool
+	graphPar []int          // indices of the parents used in the per-certificate graphs
+	rootPool *x509.CertPool // the graph parents as a pool
+	baseUnit int
+	extra    []parentCert // per unit: base certificate, issuing minted CA
+	sigAlgs  []x509.SignatureAlgorithm
+	minted   map[string][]byte
 }
 
 // issuerCA builds, with the DER writer, a CA certificate for the key that signs
@@ -611,5 +610,3 @@ func firstDiff(a, b []byte) string {
 	}
 	return fmt.Sprintf("offset %d: %q vs %q", i, cut(a), cut(b))
 }
-
-var _ = errors.New
